@@ -127,6 +127,23 @@ try:
                 lambda: dag_checks.run_mc(work, "C13", "quick"), "readiness ignores in-progress dependencies (C13 StartAfterDepsOk)")
     spec_mutant("Dag.tla", 'IF u \\in TransDependents(verts, deps, v) THEN "skip" ELSE st1[u]]', 'IF u \\in Dependents(verts, deps, v) THEN "skip" ELSE st1[u]]',
                 lambda: dag_checks.run_mc(work, "C14", "quick"), "skip-parents not transitive (C14 NoDependentOfSkipParents)")
+    # ---- 4. behaviour outside the listed properties: getoptions.InterruptContext against spec/Interrupt.tla
+    rc, out, d = tlc(work, "interrupt-mc", "Interrupt", """SPECIFICATION Spec
+CONSTANT TraceFile = ""
+INVARIANTS AtMostOnce MessageOnlyOnSignal DoneImpliesCancelled
+PROPERTY Responds
+CHECK_DEADLOCK FALSE
+""", workers=1, heap="1g")
+    expect("Interrupt.tla: safety and liveness hold (TLC)", not tlc_failed(rc, out))
+    itrace = os.path.join(work, "tr", "interrupt.ndjson")
+    p = run([gopt, "interrupt", "-n", "300", "-seed", "7", "-out", itrace], env=GOENV)
+    rc, out, d = tlc(work, "interrupt-tv", "Interrupt", """SPECIFICATION TraceSpec
+CONSTANT TraceFile = "%s"
+INVARIANTS AtMostOnce MessageOnlyOnSignal DoneImpliesCancelled
+POSTCONDITION AllConsumed
+CHECK_DEADLOCK FALSE
+""" % itrace, workers=1, heap="1g")
+    expect("InterruptContext: 300 recorded scenarios (signal / cancel / both) are behaviours of Interrupt.tla", not tlc_failed(rc, out) and "stuck=0" in p.stdout)
 finally:
     shutil.rmtree(work, ignore_errors=True)
 print("selftest: %d failure(s)" % fails)
